@@ -49,8 +49,11 @@ def cek_property(pid, tier, plan, relevant, rule, level='model_checking', max_oo
             sessions[s] = S
             nsess += len(S)
             files.append(s)
-    mism, ends, stats = cek.validate(files, wd, workers_per_tlc=4 if len(files) > 1 else 8,
-                                     parallel=min(3, len(files)))
+    # many shards (thorough tier): more TLC processes with fewer workers each -- one process per shard keeps
+    # a single core busy most of the time, the sessions of a shard being long linear chains
+    many = len(files) > 6
+    mism, ends, stats = cek.validate(files, wd, workers_per_tlc=(3 if many else 4) if len(files) > 1 else 8,
+                                     parallel=min(5 if many else 3, len(files)))
     verdict = vlib.Verdict(pid)
     # every session must have been consumed to its end
     # TLC occasionally evaluates an action (and its PrintT) twice for one state when several workers are
